@@ -100,8 +100,8 @@ theorem deliver_sound (E : Env P) (hv : E.verifySig = Gen.verifySignature) (hS :
     rcases hk with hk | ⟨_, hk⟩
     · exact hN kb k hk
     · exact hk
-  obtain ⟨signed, sg, hkf, hsplit, hsl, hvf, h23, hrem⟩ := checked_core hv hS hu hver hpk
-  exact ⟨kb, signed, sg, hkf, hpk, hsplit, hsl, hvf, h23, by rw [← hrem]; exact hdec⟩
+  obtain ⟨signed, sg, hkf, hsplit, hsl, hvf, h25, hrem⟩ := checked_core hv hS hu hver hpk
+  exact ⟨kb, signed, sg, hkf, hpk, hsplit, hsl, hvf, h25, by rw [← hrem]; exact hdec⟩
 
 /-- if a guarded wrapper passes a raw datagram along (`lazy_wrapper_wd`), it is the datagram that was authenticated -/
 theorem deliver_wd_is_datagram (E : Env P) (prog : List Op) (hg : guarded prog = true) (data k w : Bytes) (p : P)
@@ -116,6 +116,20 @@ theorem delivered_authentic (E : Env P) (dec : Bytes → Nat → Option P) (data
     (h : DeliveredBy E dec data k p) : Authentic E.S E.strict data k := by
   obtain ⟨kb, signed, sg, h1, h2, h3, h4, h5, _, _⟩ := h
   exact ⟨kb, signed, sg, h1, h2, h3, h4, h5⟩
+
+/-- the overlay prefix and the message id lie inside the signed part whenever the key's signature is not longer than
+    its carried encoding + 2 (all uncompressed encodings of the five shipped curves; NOT the compressed-point encodings
+    the parser also accepts — for those the header is inside the signed part only under unforgeability, see
+    `prefix_or_msgid_swap_rejected`) -/
+theorem header_signed_when_encoding_long (E : Env P) (dec : Bytes → Nat → Option P) (data k : Bytes) (p : P)
+    (h : DeliveredBy E dec data k p) :
+    ∃ kb signed sg, keyField E.strict data = some kb ∧ data = signed ++ sg ∧ E.S.verify k signed sg = true ∧
+      (E.S.sigLen k ≤ kb.length + 2 → 23 ≤ signed.length ∧ signed.take 23 = data.take 23) := by
+  obtain ⟨kb, signed, sg, h1, _, h3, h4, h5, h6, _⟩ := h
+  refine ⟨kb, signed, sg, h1, h3, h5, ?_⟩
+  intro hle
+  have : 23 ≤ signed.length := by omega
+  exact ⟨this, by rw [h3, List.take_append_of_le_length this]⟩
 
 /-- **touch_only_after_authentication** — the wrappers' side effect on receiver state that does not wait for the
     handler: `if peer: peer.add_address(source_address)` on the STORED verified Peer.  For every guarded program —
@@ -140,53 +154,60 @@ theorem tamper_rejected (E : Env P) (hv : E.verifySig = Gen.verifySignature) (hS
     (hN : NetOK E.S E.net) (k : Bytes) (msgs : List Bytes) (hU : OnlySigned E.S k msgs)
     (prog : List Op) (hg : guarded prog = true)
     (data : Bytes) (p : P) (wd : Option Bytes) (h : run E prog data = .called k p wd) :
-    data.take (data.length - E.S.sigLen k) ∈ msgs ∧ 23 ≤ data.length - E.S.sigLen k ∧
-      E.S.sigLen k ≤ data.length := by
-  obtain ⟨kb, signed, sg, _, _, hsplit, hsl, hver, h23, _⟩ := deliver_sound E hv hS hN prog hg data k p wd h
+    data.take (data.length - E.S.sigLen k) ∈ msgs ∧ E.S.sigLen k ≤ data.length := by
+  obtain ⟨kb, signed, sg, _, _, hsplit, hsl, hver, _, _⟩ := deliver_sound E hv hS hN prog hg data k p wd h
   have hlen : data.length = signed.length + sg.length := by rw [hsplit]; simp
   have : data.take (data.length - E.S.sigLen k) = signed := by
     rw [hlen, hsl, Nat.add_sub_cancel, hsplit]
     simp
   rw [this]
-  exact ⟨hU signed sg hver, by omega, by omega⟩
+  exact ⟨hU signed sg hver, by omega⟩
 
-/-- **bit flip anywhere before the signature**: if the holder of `k` signed only the signed part of `d`, then `d` with
-    any byte before the signature replaced by a different value is never delivered as `k` -/
-theorem bitflip_rejected (E : Env P) (hv : E.verifySig = Gen.verifySignature) (hS : WellSized E.S)
-    (hN : NetOK E.S E.net) (k d : Bytes) (hU : OnlySigned E.S k [d.take (d.length - E.S.sigLen k)])
+/-- **bit flip anywhere before the signature** — `msgs` is EVERYTHING the holder of `k` ever signed (any number of
+    messages).  `d` with a byte before the signature replaced by a different value is delivered as `k` only if the holder
+    of `k` also signed ANOTHER message: one that equals the flipped signed part and differs from `d`'s signed part. -/
+theorem bitflip_needs_another_signed_message (E : Env P) (hv : E.verifySig = Gen.verifySignature) (hS : WellSized E.S)
+    (hN : NetOK E.S E.net) (k d : Bytes) (msgs : List Bytes) (hU : OnlySigned E.S k msgs)
     (prog : List Op) (hg : guarded prog = true) (i : Nat) (b : UInt8) (hi : i < d.length - E.S.sigLen k)
-    (hb : d[i]? ≠ some b) (p : P) (wd : Option Bytes) : run E prog (d.set i b) ≠ .called k p wd := by
-  intro h
-  obtain ⟨hm, _, _⟩ := tamper_rejected E hv hS hN k _ hU prog hg _ p wd h
-  simp only [List.length_set, List.mem_singleton] at hm
-  have := congrArg (fun l => l[i]?) hm
+    (hb : d[i]? ≠ some b) (p : P) (wd : Option Bytes) (h : run E prog (d.set i b) = .called k p wd) :
+    (d.set i b).take (d.length - E.S.sigLen k) ∈ msgs ∧
+      (d.set i b).take (d.length - E.S.sigLen k) ≠ d.take (d.length - E.S.sigLen k) := by
+  obtain ⟨hm, _⟩ := tamper_rejected E hv hS hN k _ hU prog hg _ p wd h
+  simp only [List.length_set] at hm
+  refine ⟨hm, fun heq => ?_⟩
+  have := congrArg (fun l => l[i]?) heq
   simp only [List.getElem?_take, hi, if_true] at this
   rw [List.getElem?_set_self (by omega)] at this
   exact hb this.symm
 
-/-- **truncation**: cutting `c > 0` bytes off the end of `d` -/
-theorem truncation_rejected (E : Env P) (hv : E.verifySig = Gen.verifySignature) (hS : WellSized E.S)
-    (hN : NetOK E.S E.net) (k d : Bytes) (hU : OnlySigned E.S k [d.take (d.length - E.S.sigLen k)])
-    (prog : List Op) (hg : guarded prog = true) (c : Nat) (hc : 0 < c) (p : P) (wd : Option Bytes) :
-    run E prog (d.take (d.length - c)) ≠ .called k p wd := by
-  intro h
-  obtain ⟨hm, h23, hn⟩ := tamper_rejected E hv hS hN k _ hU prog hg _ p wd h
-  simp only [List.mem_singleton] at hm
-  have := congrArg List.length hm
-  simp only [List.length_take] at this h23 hn
+/-- **truncation**: `d` minus its last `c > 0` bytes is delivered as `k` only if `k` signed another, different message -/
+theorem truncation_needs_another_signed_message (E : Env P) (hv : E.verifySig = Gen.verifySignature)
+    (hS : WellSized E.S) (hN : NetOK E.S E.net) (k d : Bytes) (msgs : List Bytes) (hU : OnlySigned E.S k msgs)
+    (prog : List Op) (hg : guarded prog = true) (c : Nat) (hc : 0 < c) (p : P) (wd : Option Bytes)
+    (h : run E prog (d.take (d.length - c)) = .called k p wd) :
+    ∃ m ∈ msgs, m = (d.take (d.length - c)).take ((d.take (d.length - c)).length - E.S.sigLen k) ∧
+      m ≠ d.take (d.length - E.S.sigLen k) := by
+  obtain ⟨hm, hn⟩ := tamper_rejected E hv hS hN k _ hU prog hg _ p wd h
+  have hpos : 0 < E.S.sigLen k := by
+    obtain ⟨kb, _, hpk, _⟩ := deliver_raw E hv hN prog hg _ k p wd h
+    exact hS.pos kb k hpk
+  refine ⟨_, hm, rfl, fun heq => ?_⟩
+  have := congrArg List.length heq
+  simp only [List.length_take] at this hn
   omega
 
-/-- **extension**: appending any non-empty bytes to `d` -/
-theorem extension_rejected (E : Env P) (hv : E.verifySig = Gen.verifySignature) (hS : WellSized E.S)
-    (hN : NetOK E.S E.net) (k d : Bytes) (hU : OnlySigned E.S k [d.take (d.length - E.S.sigLen k)])
-    (prog : List Op) (hg : guarded prog = true) (ext : Bytes) (he : ext ≠ []) (p : P) (wd : Option Bytes) :
-    run E prog (d ++ ext) ≠ .called k p wd := by
-  intro h
-  obtain ⟨hm, h23, hn⟩ := tamper_rejected E hv hS hN k _ hU prog hg _ p wd h
-  simp only [List.mem_singleton] at hm
-  have := congrArg List.length hm
+/-- **extension**: `d ++ ext` (`ext` non-empty, `d` long enough to hold a signature) likewise -/
+theorem extension_needs_another_signed_message (E : Env P) (hv : E.verifySig = Gen.verifySignature)
+    (hS : WellSized E.S) (hN : NetOK E.S E.net) (k d : Bytes) (msgs : List Bytes) (hU : OnlySigned E.S k msgs)
+    (hd : E.S.sigLen k ≤ d.length)
+    (prog : List Op) (hg : guarded prog = true) (ext : Bytes) (he : ext ≠ []) (p : P) (wd : Option Bytes)
+    (h : run E prog (d ++ ext) = .called k p wd) :
+    ∃ m ∈ msgs, m = (d ++ ext).take ((d ++ ext).length - E.S.sigLen k) ∧ m ≠ d.take (d.length - E.S.sigLen k) := by
+  obtain ⟨hm, hn⟩ := tamper_rejected E hv hS hN k _ hU prog hg _ p wd h
+  refine ⟨_, hm, rfl, fun heq => ?_⟩
+  have := congrArg List.length heq
   have hel : 0 < ext.length := List.length_pos_iff.mpr he
-  simp only [List.length_take, List.length_append] at this h23 hn
+  simp only [List.length_take, List.length_append] at this hn
   omega
 
 /-- a wrapper program without a Peer-call statement — in particular the unsigned wrappers as translated — never hands
@@ -212,8 +233,8 @@ theorem discRaw_sound (prog : List Op) (hg : guarded prog = true) (hnp : noPeerC
     obtain ⟨e, rem, hu, hver, hdec⟩ := run_guarded_returned hg hr
     rw [hEst] at hu
     rw [hES, hEv, ← hv] at hver
-    obtain ⟨signed, sg, hkf, hsplit, hsl, hvf, h23, hrem⟩ := checked_core hv hS hu hver hpk
-    exact ⟨kb, signed, sg, hkf, hpk, hsplit, hsl, hvf, h23, by rw [← hrem]; exact hdec⟩
+    obtain ⟨signed, sg, hkf, hsplit, hsl, hvf, h25, hrem⟩ := checked_core hv hS hu hver hpk
+    exact ⟨kb, signed, sg, hkf, hpk, hsplit, hsl, hvf, h25, by rw [← hrem]; exact hdec⟩
   have nocall : ∀ (E' : Env P) a b c, run E' prog data ≠ .called a b c := fun E' a b c =>
     runFrom_noPeerCall prog {} hnp
   unfold discRaw at h
@@ -295,37 +316,36 @@ theorem cross_overlay_replay_dropped (G : Progs) (o : Overlay) (envOf : Handler 
     onPacket G o envOf Gen.prefixLen Gen.msgIdOffset data = .droppedPrefix := by
   simp [onPacket, hpfx]
 
-/-- **prefix swap / msg-id swap**: if everything the holder of `k` ever signed starts with prefix `pfx` and message id
-    `mid`, then no overlay with another prefix, and no handler registered under another id, is entered as `k` -/
-theorem prefix_or_msgid_swap_rejected (G : Progs) (hG : GuardedProgs G) (S : Scheme) (strict : Bool)
-    (hS : WellSized S) (o : Overlay)
+/-- **prefix swap / msg-id swap / replay into another overlay** — `msgs` is everything the holder of `k` ever signed, in
+    whatever overlays and under whatever message ids, each at least a header long.  A handler of overlay `o` registered
+    under id `hd.msgId` is entered as `k` only if one of those messages starts with `o`'s prefix followed by that id. -/
+theorem delivery_needs_message_signed_for_this_overlay_and_id (G : Progs) (hG : GuardedProgs G) (S : Scheme)
+    (strict : Bool) (hS : WellSized S) (o : Overlay)
     (envOf : Handler → Env P) (hE : EnvsOK S strict envOf) (hN : ∀ h, NetOK S (envOf h).net)
-    (k : Bytes) (msgs : List Bytes) (hU : OnlySigned S k msgs) (pfx : Bytes) (mid : UInt8)
-    (hall : ∀ m ∈ msgs, m.take 22 = pfx ∧ m[22]? = some mid)
+    (k : Bytes) (msgs : List Bytes) (hU : OnlySigned S k msgs) (hlen : ∀ m ∈ msgs, 23 ≤ m.length)
     (data : Bytes) (hd : Handler) (p : P) (wd : Option Bytes)
     (h : onPacket G o envOf Gen.prefixLen Gen.msgIdOffset data = .handler hd (.called k p wd)) :
-    o.pfx = pfx ∧ hd.msgId = mid.toNat := by
+    ∃ m ∈ msgs, ∃ mid : UInt8, m.take 22 = o.pfx ∧ m[22]? = some mid ∧ hd.msgId = mid.toNat := by
   obtain ⟨hpfx, ⟨m, hm, hf⟩, _, hdel⟩ := onPacket_sound G hG S strict hS o envOf hE hN data k hd p wd h
-  have hcore : ∃ signed sg, data = signed ++ sg ∧ (envOf hd).S.verify k signed sg = true ∧ 23 ≤ signed.length := by
-    rcases hdel with ⟨_, signed, sg, _, _, h3, _, h5, h6, _⟩ | ⟨_, signed, sg, _, _, h3, _, h5, h6, _⟩
-    · exact ⟨signed, sg, h3, h5, h6⟩
-    · exact ⟨signed, sg, h3, h5, h6⟩
-  obtain ⟨signed, sg, hsplit, hver, h23⟩ := hcore
+  have hcore : ∃ signed sg, data = signed ++ sg ∧ (envOf hd).S.verify k signed sg = true := by
+    rcases hdel with ⟨_, signed, sg, _, _, h3, _, h5, _, _⟩ | ⟨_, signed, sg, _, _, h3, _, h5, _, _⟩
+    · exact ⟨signed, sg, h3, h5⟩
+    · exact ⟨signed, sg, h3, h5⟩
+  obtain ⟨signed, sg, hsplit, hver⟩ := hcore
   rw [hE.scheme hd] at hver
-  obtain ⟨h1, h2⟩ := hall signed (hU signed sg hver)
+  have hmem := hU signed sg hver
+  have h23 := hlen signed hmem
   have hp22 : data.take 22 = signed.take 22 := by
     rw [hsplit, List.take_append_of_le_length (by omega)]
   have hm22 : data[22]? = signed[22]? := by
     rw [hsplit, List.getElem?_append_left (by omega)]
-  constructor
+  refine ⟨signed, hmem, m, ?_, ?_, ?_⟩
   · have : data.take 22 = o.pfx := hpfx
-    rw [← this, hp22, h1]
+    rw [← hp22, this]
   · have hm' : data[22]? = some m := hm
-    rw [hm22, h2] at hm'
-    have hmm : mid = m := Option.some.inj hm'
-    have := List.find?_some hf
-    simp at this
-    rw [this, hmm]
+    rw [← hm22]; exact hm'
+  · have := List.find?_some hf
+    simpa using this
 
 /-! ### histories: who can end up in verified_peers -/
 
@@ -521,7 +541,7 @@ def toyEnv : Env Bytes :=
 def toyEnvKnown : Env Bytes := { toyEnv with net := fun kb => if kb == [5, 5] then some [5, 5] else none }
 
 example : WellSized toySigner.toScheme :=
-  ⟨fun _ _ _ => Nat.one_pos, fun kb _ _ => by simp [toySigner]⟩
+  ⟨fun _ _ _ => Nat.one_pos, fun _ _ s h => by simp [toySigner] at h; simp [h, toySigner]⟩
 example : Canon toySigner.toScheme := fun kb k h => by
   simp only [toySigner] at h ⊢
   split at h
@@ -561,6 +581,19 @@ example : run toyEnv Gen.lazyWrapperWd toyDatagram = .called [5, 5] [9, 9] (some
 example : run toyEnvKnown Gen.lazyWrapper toyDatagram = .called [5, 5] [9, 9] none := by decide +kernel
 example : touchedBy toyEnvKnown Gen.lazyWrapper toyDatagram = some [5, 5] := by decide +kernel
 example : run toyEnvKnown Gen.lazyWrapper toyDatagramNC = .called [5, 5] [9, 9] none := by decide +kernel
+/-- the tampering theorems are not vacuous: a scheme under which [5,5] signed EXACTLY the signed part of `toyDatagram`
+    satisfies `OnlySigned` and `WellSized`, and that datagram is delivered -/
+def onlyToy : Scheme :=
+  { toySigner.toScheme with verify := fun k m s => k == [5, 5] && m == toyDatagram.dropLast && s == [toyTag k m] }
+example : OnlySigned onlyToy [5, 5] [toyDatagram.dropLast] := fun m s h => by
+  simp only [onlyToy, Bool.and_eq_true, beq_iff_eq] at h
+  simp [h.1.2]
+example : WellSized onlyToy := ⟨fun _ _ _ => Nat.one_pos, fun k m s h => by
+  simp only [onlyToy, Bool.and_eq_true, beq_iff_eq] at h
+  simp [h.2, onlyToy, toySigner]⟩
+example : run { toyEnv with S := onlyToy } Gen.lazyWrapper toyDatagram = .called [5, 5] [9, 9] none := by decide +kernel
+example : run { toyEnv with S := onlyToy } Gen.lazyWrapper (toyDatagram.set 27 8) = .rejected .signature := by
+  decide +kernel
 /-- a key field that does not parse (one byte) -/
 example : run toyEnv Gen.lazyWrapper (List.replicate 22 1 ++ [246, 0, 1, 5, 9, 9, 0]) = .rejected .keyParse := by
   decide +kernel
@@ -609,7 +642,7 @@ example : guarded [.unpackAuth 23, .lookupPeer, .verify, .assertValid, .decode .
 /-- `Authentic` is satisfiable -/
 example : Authentic toySigner.toScheme Gen.strictVarlen toyDatagram [5, 5] :=
   delivered_authentic toyEnv _ toyDatagram [5, 5] [9, 9]
-    (deliver_sound toyEnv rfl ⟨fun _ _ _ => Nat.one_pos, fun kb _ _ => by simp [toyEnv, toySigner]⟩
+    (deliver_sound toyEnv rfl ⟨fun _ _ _ => Nat.one_pos, fun _ _ s h => by simp [toyEnv, toySigner] at h; simp [h, toyEnv, toySigner]⟩
       (fun _ _ h => by simp [toyEnv] at h) _ gen_wrappers_guarded.signed _ _ _ none (by decide +kernel))
 /-- histories over TWO overlays sharing one key index, one of them with the reviewed raw handler: the forged datagram
     adds nobody, the honest one adds [5,5] through the raw handler; afterwards the other overlay's lookup hits -/
